@@ -15,8 +15,9 @@
     `parsePrint` for every first token of a printed expression, `headTypes`/`pieces_head`), `textOrTag_print` (any `untl`
     without `{` and without a first token), `itemList_print`, `itemList_print_until` (inside a block) and `template_print`
     (TOKEN level: `{template .t}` tag `{/template}` gives the template node whose body is [the print node]).
-    Not covered: the BYTE level of a frame with other tags around the print tag (`{namespace}`, soydoc, `{template}`: the
-    lexer lemma layer of C17b fixes `tagStart = 0`, i.e. the tag at the start of the input).
+  * `print_tag_run`: the lexer layer (`L tg …`, parameterised by `tagStart`) lexes the print tag at ANY offset, whatever follows;
+    Props/C17d `print_cmd_in_body_roundtrip`: `parse.SoyFile` on `text₁ ++ tag ++ text₂`.
+    Not covered: the BYTE level of a frame with other tags around the print tag (`{namespace}`, soydoc, `{template}`).
   Hypotheses: `NamesOk ff` of the expression and of every directive argument (Lemmas/LexPrintNames), and `DirNameOk`:
   the directive name is an identifier as the lexer reads it after `|` (ASCII letter or `_`, then letters / digits / `_`
   of any script) that is not a word of `builtinIdents` (`{$x|call}`, `{$x|if:1}` are rejected by the real parser too:
@@ -34,6 +35,8 @@ namespace SoyVerif.Props.C17c
 open SoyVerif SoyVerif.Model SoyVerif.Model.Lex SoyVerif.Model.Parser SoyVerif.Model.PrintTokens
 open SoyVerif.Model.Printer SoyVerif.Lemmas.LexPrint SoyVerif.Lemmas.ParserBasic
 open SoyVerif.Lemmas.ParserAdj SoyVerif.Lemmas.ParserToks
+
+variable {tg : Int}
 
 /-! ## the token view of a print command -/
 
@@ -225,8 +228,8 @@ include T
 theorem lex_pieces_tail {inp : Array UInt8} (tail : Bytes) : ∀ (ps : List Piece) (p : Nat) (le : Item) (its : Array Item),
     InpAt inp p (spell ps ++ tail) → Adj ps tail → chainOK le.typ (typs (unsp ps)) = true →
     ∃ k, k ≤ 2 * ps.length ∧ ∀ (w : Int) (n : Nat), ∃ w' le' its',
-      run (n + k) .insideTag (L inp p p w le its) =
-        run n .insideTag (L inp (p + (spell ps).length) (p + (spell ps).length) w' le' its') ∧
+      run (n + k) .insideTag (L tg inp p p w le its) =
+        run n .insideTag (L tg inp (p + (spell ps).length) (p + (spell ps).length) w' le' its') ∧
       its'.toList = its.toList ++ emitT p ps
   | [], p, le, its, h, _, _ => ⟨0, by simp, fun w n => ⟨w, le, its, by simp [spell], by simp [emitT]⟩⟩
   | .sp :: r, p, le, its, h, ha, hc => by
@@ -241,7 +244,7 @@ theorem lex_pieces_tail {inp : Array UInt8} (tail : Bytes) : ∀ (ps : List Piec
     have h' : InpAt inp p (t.val ++ (spell r ++ tail)) := by simpa [spell] using h
     have hc' : pairOK le.typ t.typ = true ∧ chainOK t.typ (typs (unsp r)) = true := by
       simpa [unsp, typs, chainOK] using hc
-    obtain ⟨k0, hk1, hk2, hrun0⟩ := tok_step T h' ha.1 hc'.1 (le := le) (its := its)
+    obtain ⟨k0, hk1, hk2, hrun0⟩ := tok_step (tg := tg) T h' ha.1 hc'.1 (le := le) (its := its)
     have h2 : InpAt inp (p + t.val.length) (spell r ++ tail) := inpAt_append h'
     obtain ⟨k, hk, hrun⟩ := lex_pieces_tail tail r (p + t.val.length) (itemOf t (p + t.val.length))
       (its.push (itemOf t (p + t.val.length))) h2 ha.2 (by simpa [itemOf] using hc'.2)
@@ -260,23 +263,23 @@ end
 
 /-- `lexInsideTag` at the closing `}` -/
 theorem step_rbrace {inp q s} (h : InpAt inp q (125 :: s)) (w le its) :
-    step .insideTag (L inp q q w le its) = some (some .rightDelim, L inp (q + 1) q 1 le its) := by
+    step .insideTag (L tg inp q q w le its) = some (some .rightDelim, L tg inp (q + 1) q 1 le its) := by
   simp only [step, lexInsideTag, next_L h (by decide), Option.bind_eq_bind, Option.bind_some]
   simp [Lex.isSpaceEOL, Lex.isSpace, Lex.isEndOfLine, lexInsideTagMid]
 
 /-- `lexRightDelim` (single braces): the RightDelim item, back to `lexText` -/
 theorem step_rightDelim {inp q s} (h : InpAt inp q (125 :: s)) (le its) :
-    step .rightDelim (L inp (q + 1) q 1 le its) =
-      some (some .text, L inp (q + 1) (q + 1) 1 ⟨.tRightDelim, q + 1, [125]⟩ (its.push ⟨.tRightDelim, q + 1, [125]⟩)) := by
-  have he := emit_L (inp := inp) (st := q) (v := [125]) (s := s) h (pe := q + 1) rfl 1 le its .tRightDelim
-  have hb : badDoubleClose (L inp (q + 1) q 1 le its) = some (false, L inp (q + 1) q 1 le its) := by
+    step .rightDelim (L tg inp (q + 1) q 1 le its) =
+      some (some .text, L tg inp (q + 1) (q + 1) 1 ⟨.tRightDelim, q + 1, [125]⟩ (its.push ⟨.tRightDelim, q + 1, [125]⟩)) := by
+  have he := emit_L (tg := tg) (inp := inp) (st := q) (v := [125]) (s := s) h (pe := q + 1) rfl 1 le its .tRightDelim
+  have hb : badDoubleClose (L tg inp (q + 1) q 1 le its) = some (false, L tg inp (q + 1) q 1 le its) := by
     unfold badDoubleClose L; simp
   simp only [step, lexRightDelim, hb, Option.bind_eq_bind, Option.bind_some, Bool.false_eq_true, if_false, he, Option.pure_def]
 
 /-- `lexText` in front of `{` with no pending text: on to `lexLeftDelim` -/
 theorem step_text_lbrace {inp p s} (h : InpAt inp p (123 :: s)) (w le its) :
-    step .text (L inp p p w le its) = some (some .leftDelim, L inp p p 1 le its) := by
-  have hn := next_L h (by decide) p w le its
+    step .text (L tg inp p p w le its) = some (some .leftDelim, L tg inp p p 1 le its) := by
+  have hn := next_L (tg := tg) h (by decide) p w le its
   simp only [step, lexText]
   rw [lexTextLoop]
   split
@@ -285,16 +288,16 @@ theorem step_text_lbrace {inp p s} (h : InpAt inp p (123 :: s)) (w le its) :
     rw [hn] at heq
     simp only [Option.some.injEq, Prod.mk.injEq] at heq
     obtain ⟨rfl, rfl⟩ := heq
-    have hm : maybeEmitText (L inp p p 1 le its) 0 = some (L inp p p 1 le its) := by
+    have hm : maybeEmitText (L tg inp p p 1 le its) 0 = some (L tg inp p p 1 le its) := by
       unfold maybeEmitText L; simp
     simp [backup_L, hm]
 
 /-- `lexText` at the end of the input with no pending text: EOF, and the machine stops -/
 theorem step_text_eof {inp p} (h : InpAt inp p []) (w le its) :
-    ∃ l', step .text (L inp p p w le its) = some (none, l') ∧ l'.items = its.push ⟨.tEOF, p, []⟩ := by
-  have hn := next_eof_L h p w le its
-  have he := emit_L (inp := inp) (st := p) (v := []) (s := []) (by simpa using h) (pe := p) (by simp) 0 le its .tEOF
-  refine ⟨L inp p p 0 ⟨.tEOF, p, []⟩ (its.push ⟨.tEOF, p, []⟩), ?_, rfl⟩
+    ∃ l', step .text (L tg inp p p w le its) = some (none, l') ∧ l'.items = its.push ⟨.tEOF, p, []⟩ := by
+  have hn := next_eof_L (tg := tg) h p w le its
+  have he := emit_L (tg := tg) (inp := inp) (st := p) (v := []) (s := []) (by simpa using h) (pe := p) (by simp) 0 le its .tEOF
+  refine ⟨L tg inp p p 0 ⟨.tEOF, p, []⟩ (its.push ⟨.tEOF, p, []⟩), ?_, rfl⟩
   simp only [step, lexText]
   rw [lexTextLoop]
   split
@@ -303,18 +306,18 @@ theorem step_text_eof {inp p} (h : InpAt inp p []) (w le its) :
     rw [hn] at heq
     simp only [Option.some.injEq, Prod.mk.injEq] at heq
     obtain ⟨rfl, rfl⟩ := heq
-    have hm : maybeEmitText (L inp p p 0 le its) 0 = some (L inp p p 0 le its) := by
+    have hm : maybeEmitText (L tg inp p p 0 le its) 0 = some (L tg inp p p 0 le its) := by
       unfold maybeEmitText L; simp
     simp [backup_L0, hm, he, eof]
 
-/-- `lexLeftDelim` at offset 0 in front of a single `{` -/
-theorem step_leftDelim {inp} {c : UInt8} {s : Bytes} (h : InpAt inp 0 (123 :: c :: s)) (hc : c < 128) (hne : c ≠ 123) (w le its) :
-    step .leftDelim (L inp 0 0 w le its) =
-      some (some .beginTag, L inp 1 1 1 ⟨.tLeftDelim, 1, [123]⟩ (its.push ⟨.tLeftDelim, 1, [123]⟩)) := by
-  have h1 := next_L h (by decide) 0 w le its
-  have h2 := next_L (inpAt_tail h) hc 0 1 le its
-  have he := emit_L (inp := inp) (st := 0) (v := [123]) (s := c :: s) h (pe := 1) rfl 1 le its .tLeftDelim
-  have hts : ({ L inp 0 0 w le its with tagStart := (L inp 0 0 w le its).start } : Lexer) = L inp 0 0 w le its := by
+/-- `lexLeftDelim` at offset `q` in front of a single `{`: `tagStart` becomes `q` -/
+theorem step_leftDelim {inp q} {c : UInt8} {s : Bytes} (h : InpAt inp q (123 :: c :: s)) (hc : c < 128) (hne : c ≠ 123) (w le its) :
+    step .leftDelim (L tg inp q q w le its) =
+      some (some .beginTag, L (q : Int) inp (q + 1) (q + 1) 1 ⟨.tLeftDelim, q + 1, [123]⟩ (its.push ⟨.tLeftDelim, q + 1, [123]⟩)) := by
+  have h1 := next_L (tg := (q : Int)) h (by decide) q w le its
+  have h2 := next_L (tg := (q : Int)) (inpAt_tail h) hc q 1 le its
+  have he := emit_L (tg := (q : Int)) (inp := inp) (st := q) (v := [123]) (s := c :: s) h (pe := q + 1) rfl 1 le its .tLeftDelim
+  have hts : ({ L tg inp q q w le its with tagStart := (L tg inp q q w le its).start } : Lexer) = L (q : Int) inp q q w le its := by
     unfold L; simp
   have hcn : ¬ ((c.toNat : Int) = 123) := by
     intro e
@@ -322,15 +325,15 @@ theorem step_leftDelim {inp} {c : UInt8} {s : Bytes} (h : InpAt inp 0 (123 :: c 
     apply UInt8.toNat_inj.mp
     have : c.toNat = 123 := by omega
     simpa using this
-  have hb := backup_L inp 1 0 le its
-  have hdd : ({ L inp 1 0 1 le its with doubleDelim := false } : Lexer) = L inp 1 0 1 le its := by unfold L; rfl
-  simp only [step, lexLeftDelim, hts, h1, Option.bind_eq_bind, Option.bind_some, Nat.zero_add] at h2 ⊢
+  have hb := backup_L (tg := (q : Int)) inp (q + 1) q le its
+  have hdd : ({ L (q : Int) inp (q + 1) q 1 le its with doubleDelim := false } : Lexer) = L (q : Int) inp (q + 1) q 1 le its := by unfold L; rfl
+  simp only [step, lexLeftDelim, hts, h1, Option.bind_eq_bind, Option.bind_some] at h2 ⊢
   simp only [h2, Option.bind_some, hcn, if_false, hb, hdd, he, Option.pure_def]
 
 /-- `lexBeginTag`: not a closing tag, not a special character -/
 theorem step_beginTag {inp q} {c : UInt8} {s : Bytes} (h : InpAt inp q (c :: s)) (hc : c < 128) (h1 : c ≠ 47) (h2 : c ≠ 92) (w le its) :
-    step .beginTag (L inp q q w le its) = some (some .insideTag, L inp q q 1 le its) := by
-  have hp := peek_hd h (asciiHd_cons hc) q w le its
+    step .beginTag (L tg inp q q w le its) = some (some .insideTag, L tg inp q q 1 le its) := by
+  have hp := peek_hd (tg := tg) h (asciiHd_cons hc) q w le its
   have c1 : ¬ ((c.toNat : Int) = 47) := by
     intro e; apply h1; apply UInt8.toNat_inj.mp; have : c.toNat = 47 := by omega
     simpa using this
@@ -436,11 +439,63 @@ section
 variable (ff : UInt64 → Bytes) (LT : LexTableOK)
 include LT
 
+/-- the items of the tag of a print command whose `{` stands at offset `q` -/
+def tagItems (q : Nat) (arg : Expr) (dirs : List Directive) : List Item :=
+  ⟨.tLeftDelim, q + 1, [123]⟩ :: (emitT (q + 1) (piecesBody ff arg dirs) ++
+    [⟨.tRightDelim, q + 1 + (spell (piecesBody ff arg dirs)).length + 1, [125]⟩])
+
 /-- the items `lex` sends for a print command: `{`, the body's tokens, `}`, EOF (END offsets) -/
 def cmdItems (arg : Expr) (dirs : List Directive) : List Item :=
   ⟨.tLeftDelim, 1, [123]⟩ :: (emitT 1 (piecesBody ff arg dirs) ++
     [⟨.tRightDelim, 1 + (spell (piecesBody ff arg dirs)).length + 1, [125]⟩,
      ⟨.tEOF, 1 + (spell (piecesBody ff arg dirs)).length + 1, []⟩])
+
+/-- the first byte of the body of a printed print command -/
+theorem body_first_byte (arg : Expr) (dirs : List Directive) (h : CmdOk ff arg dirs) :
+    ∃ c s, spell (piecesBody ff arg dirs) = c :: s ∧ c < 128 ∧ c ≠ 123 ∧ c ≠ 47 ∧ c ≠ 92 := by
+  have hadj := adj_body ff LT arg dirs h [125] (closer_rbrace [])
+  obtain ⟨t0, hh, hty⟩ := pieces_head ff arg
+  unfold piecesBody at hadj ⊢
+  cases hp : pieces ff arg with
+  | nil => rw [hp] at hh; cases hh
+  | cons x r =>
+    rw [hp] at hh hadj
+    simp only [List.head?_cons, Option.some.injEq] at hh
+    subst hh
+    simp only [List.cons_append, Adj] at hadj
+    obtain ⟨c, r', hv, h1, h2, h3, h4⟩ := head_byte hadj.1 hty
+    exact ⟨c, r' ++ spell (r ++ piecesDirs ff dirs), by simp [spell, hv], h1, h2, h3, h4⟩
+
+/-- BYTE LEVEL, a print tag ANYWHERE in the input: `lexLeftDelim` at the `{` (offset `q`) of the text `PrintNode.String()`
+    writes, whatever follows the tag (`post`): `k + 4` state functions later the machine is back in `lexText` behind the
+    `}`, and has sent the LeftDelim item, the items of the printed tokens and the RightDelim item (END offsets) -/
+theorem print_tag_run (arg : Expr) (dirs : List Directive) (h : CmdOk ff arg dirs) {inp : Array UInt8} {q : Nat} {post : Bytes}
+    (hin : InpAt inp q (printPrint ff arg dirs ++ post)) (le : Item) (its : Array Item) :
+    ∃ k, k ≤ 2 * (spell (piecesBody ff arg dirs)).length ∧ ∀ (w : Int) (n : Nat), ∃ its',
+      run (n + k + 4) .leftDelim (L tg inp q q w le its) =
+        run n .text (L (q : Int) inp (q + 1 + (spell (piecesBody ff arg dirs)).length + 1)
+          (q + 1 + (spell (piecesBody ff arg dirs)).length + 1) 1
+          ⟨.tRightDelim, q + 1 + (spell (piecesBody ff arg dirs)).length + 1, [125]⟩ its') ∧
+      its'.toList = its.toList ++ tagItems ff q arg dirs := by
+  have hadj := adj_body ff LT arg dirs h (125 :: post) (closer_rbrace post)
+  have hchain := chain_body ff arg dirs
+  obtain ⟨c, s, hB, hc, hc1, hc2, hc3⟩ := body_first_byte ff LT arg dirs h
+  have hlen := adj_length _ _ hadj
+  have hin0 : InpAt inp q (123 :: c :: (s ++ 125 :: post)) := by
+    rw [spell_body, hB] at hin; simpa using hin
+  have hin1 : InpAt inp (q + 1) (spell (piecesBody ff arg dirs) ++ 125 :: post) := by
+    have := inpAt_tail hin0; rw [hB]; simpa using this
+  have hin1' : InpAt inp (q + 1) (c :: (s ++ 125 :: post)) := inpAt_tail hin0
+  have hinq : InpAt inp (q + 1 + (spell (piecesBody ff arg dirs)).length) (125 :: post) := inpAt_append hin1
+  obtain ⟨k, hk, hrun⟩ := lex_pieces_tail (tg := (q : Int)) LT (inp := inp) (125 :: post) (piecesBody ff arg dirs) (q + 1)
+    ⟨.tLeftDelim, q + 1, [123]⟩ (its.push ⟨.tLeftDelim, q + 1, [123]⟩) hin1 hadj hchain
+  refine ⟨k, by omega, fun w n => ?_⟩
+  obtain ⟨w', le', its', h1, h2⟩ := hrun 1 (n + 2)
+  refine ⟨its'.push ⟨.tRightDelim, q + 1 + (spell (piecesBody ff arg dirs)).length + 1, [125]⟩, ?_, ?_⟩
+  · rw [show n + k + 4 = ((n + 2 + k) + 1) + 1 by omega, run_step (step_leftDelim hin0 hc hc1 w le its),
+      run_step (step_beginTag hin1' hc hc2 hc3 1 _ _), h1, run_step (step_rbrace hinq w' le' its'),
+      run_step (step_rightDelim hinq le' its')]
+  · simp [tagItems, h2]
 
 /-- BYTE LEVEL, print commands (FULL): lexing — in FILE mode — the text `PrintNode.String()` writes for a print command
     yields exactly the LeftDelim item, the printed tokens of the expression, `|` Ident [`:` tokens (`,` tokens)*] for every
@@ -448,45 +503,27 @@ def cmdItems (arg : Expr) (dirs : List Directive) : List Item :=
 theorem lex_print_cmd_items (arg : Expr) (dirs : List Directive) (h : CmdOk ff arg dirs) :
     lexAll (printPrint ff arg dirs) false = .items (cmdItems ff arg dirs) := by
   have hadj := adj_body ff LT arg dirs h [125] (closer_rbrace [])
-  have hchain := chain_body ff arg dirs
-  -- the first byte of the body
-  obtain ⟨t0, hh, hty⟩ := pieces_head ff arg
-  obtain ⟨c, s, hB, hc, hc1, hc2, hc3⟩ : ∃ c s, spell (piecesBody ff arg dirs) = c :: s ∧ c < 128 ∧ c ≠ 123 ∧ c ≠ 47 ∧ c ≠ 92 := by
-    unfold piecesBody at hadj ⊢
-    cases hp : pieces ff arg with
-    | nil => rw [hp] at hh; cases hh
-    | cons x r =>
-      rw [hp] at hh hadj
-      simp only [List.head?_cons, Option.some.injEq] at hh
-      subst hh
-      simp only [List.cons_append, Adj] at hadj
-      obtain ⟨c, r', hv, h1, h2, h3, h4⟩ := head_byte hadj.1 hty
-      exact ⟨c, r' ++ spell (r ++ piecesDirs ff dirs), by simp [spell, hv], h1, h2, h3, h4⟩
   have hlen := adj_length _ _ hadj
-  obtain ⟨k, hk, hrun⟩ := lex_pieces_tail LT (inp := (printPrint ff arg dirs).toArray) [125] (piecesBody ff arg dirs) 1
-    ⟨.tLeftDelim, 1, [123]⟩ (#[].push ⟨.tLeftDelim, 1, [123]⟩)
-    (by rw [spell_body]; exact ⟨[123], by simp, rfl⟩) hadj hchain
-  have hin0 : InpAt (printPrint ff arg dirs).toArray 0 (123 :: c :: (s ++ [125])) := by
-    rw [spell_body, hB]; exact ⟨[], by simp, rfl⟩
-  have hin1 : InpAt (printPrint ff arg dirs).toArray 1 (c :: (s ++ [125])) := inpAt_tail hin0
-  have hinq : InpAt (printPrint ff arg dirs).toArray (1 + (spell (piecesBody ff arg dirs)).length) [125] := by
-    rw [spell_body]; exact ⟨123 :: spell (piecesBody ff arg dirs), by simp, by simp; omega⟩
-  have hine : InpAt (printPrint ff arg dirs).toArray (1 + (spell (piecesBody ff arg dirs)).length + 1) [] := inpAt_tail hinq
+  have hin0 : InpAt (printPrint ff arg dirs).toArray 0 (printPrint ff arg dirs ++ []) := ⟨[], by simp, rfl⟩
+  have hin0' : InpAt (printPrint ff arg dirs).toArray 0 (123 :: (spell (piecesBody ff arg dirs) ++ [125])) := by
+    rw [spell_body]; exact ⟨[], by simp, rfl⟩
+  have hine : InpAt (printPrint ff arg dirs).toArray (0 + 1 + (spell (piecesBody ff arg dirs)).length + 1) [] := by
+    rw [spell_body]; exact ⟨123 :: (spell (piecesBody ff arg dirs) ++ [125]), by simp, by simp; omega⟩
+  obtain ⟨k, hk, hrun⟩ := print_tag_run (tg := 0) ff LT arg dirs h hin0 Item.zero #[]
   unfold lexAll
   simp only [Bool.false_eq_true, if_false, initLexer_eq]
-  have hF : Lex.fuelFor (printPrint ff arg dirs).length = ((Lex.fuelFor (printPrint ff arg dirs).length - (k + 6)) + 3 + k) + 1 + 1 + 1 := by
+  have hF : Lex.fuelFor (printPrint ff arg dirs).length = ((Lex.fuelFor (printPrint ff arg dirs).length - (k + 6)) + 1 + k + 4) + 1 := by
     unfold Lex.fuelFor
     rw [spell_body]
     simp only [List.length_cons, List.length_append, List.length_nil]
     omega
-  rw [hF, run_step (step_text_lbrace hin0 0 Item.zero #[]), run_step (step_leftDelim hin0 hc hc1 1 Item.zero #[]),
-    run_step (step_beginTag hin1 hc hc2 hc3 1 _ _)]
-  obtain ⟨w', le', its', h1, h2⟩ := hrun 1 (Lex.fuelFor (printPrint ff arg dirs).length - (k + 6) + 3)
-  rw [h1, run_step (step_rbrace hinq w' le' its'), run_step (step_rightDelim hinq le' its')]
-  obtain ⟨l', hs, hi⟩ := step_text_eof hine 1 ⟨.tRightDelim, 1 + (spell (piecesBody ff arg dirs)).length + 1, [125]⟩
-    (its'.push ⟨.tRightDelim, 1 + (spell (piecesBody ff arg dirs)).length + 1, [125]⟩)
+  rw [hF, run_step (step_text_lbrace hin0' 0 Item.zero #[])]
+  obtain ⟨its', h1, h2⟩ := hrun 1 (Lex.fuelFor (printPrint ff arg dirs).length - (k + 6) + 1)
+  rw [h1]
+  obtain ⟨l', hs, hi⟩ := step_text_eof (tg := ((0 : Nat) : Int)) hine 1
+    ⟨.tRightDelim, 0 + 1 + (spell (piecesBody ff arg dirs)).length + 1, [125]⟩ its'
   rw [run_stop hs, hi]
-  simp [cmdItems, h2]
+  simp [cmdItems, tagItems, h2, Nat.add_comm]
 
 /-- … position-free: `{`, the tokens of the expression and of the directives, `}`, EOF -/
 theorem lex_print_cmd (arg : Expr) (dirs : List Directive) (h : CmdOk ff arg dirs) :
